@@ -191,6 +191,35 @@ def sweep(ctx, n):
                     fails.append({"key": f"first-principles:{cls}:{kind}", "desc": f"field differs from the quadrature of the defining integral (rel. H {eH:.2g}, B {eB:.2g})",
                                   "replay": {"class": cls, "where": kind, "local_observers": loc.tolist(), "rel_err_H": eH, "rel_err_B": eB,
                                              "source": {a: np.asarray(getattr(src, a)).tolist() for a in ("dimension", "diameter", "vertices", "polarization", "current", "moment") if getattr(src, a, None) is not None}}})
+        # observers EXACTLY on the prolongation of a Cylinder's lateral hull (r = r0 in floating point, beyond the end faces) and on
+        # the inner / outer radius of a full ring, a dozen in ONE call (the vectorised elliptic-integral path) and one at a time:
+        # both equal the quadrature of the defining integral (these points are off the surface)
+        for _ in range(max(2, n // 12)):
+            nps = np.random.default_rng(rng.randrange(2**31))
+            d_, h_ = float(nps.choice([1.0, 2.0, 3.0])), float(nps.uniform(0.5, 2))
+            polc = nps.uniform(-1, 1, 3)
+            for srcx, clsx, radii in ((magpy.magnet.Cylinder(dimension=(d_, h_), polarization=polc), "Cylinder", [d_ / 2]),
+                                      (magpy.magnet.CylinderSegment(dimension=(d_ / 4, d_ / 2, h_, 0, 360), polarization=polc), "CylinderSegment", [d_ / 4, d_ / 2])):
+                ph = nps.uniform(0, 2 * np.pi, 12)
+                ph[:3] = [0.0, np.pi / 2, np.arctan2(0.8, 0.6)]
+                rr = nps.choice(radii, 12)
+                zz = nps.uniform(0.6, 2.5, 12) * h_ * nps.choice([-1, 1], 12)
+                loc = np.stack([rr * np.cos(ph), rr * np.sin(ph), zz], axis=1)
+                loc[0], loc[1], loc[2] = (rr[0], 0.0, zz[0]), (0.0, rr[1], zz[1]), (0.6 * rr[2], 0.8 * rr[2], zz[2])
+                Hq = reference_H(srcx, clsx, loc, n=96)
+                scH = np.max(np.linalg.norm(Hq, axis=1)) + 1e-300
+                quad_est = float(np.max(np.abs(Hq - reference_H(srcx, clsx, loc, n=64))) / scH)  # the reference's own accuracy, from two node counts
+                Hb = magpy.getH(srcx, loc)
+                Hs = np.array([magpy.getH(srcx, p_) for p_ in loc])
+                Bb = magpy.getB(srcx, loc)
+                done += len(loc)
+                e1 = float(np.nanmax(np.abs(Hb - Hq)) / scH) if np.isfinite(Hb).all() else float("inf")
+                e2 = float(np.nanmax(np.abs(Hs - Hq)) / scH) if np.isfinite(Hs).all() else float("inf")
+                e3 = float(np.nanmax(np.abs(Bb - mu_0 * Hq)) / (mu_0 * scH)) if np.isfinite(Bb).all() else float("inf")
+                worst[f"{clsx}:hull-prolongation"] = max(worst.get(f"{clsx}:hull-prolongation", 0), e1, e2, e3)
+                if not max(e1, e2, e3) < max(2e-6, 30 * quad_est):
+                    fails.append({"key": f"first-principles:{clsx}:hull-prolongation", "desc": f"observers exactly on r = r0 beyond the end faces: field differs from the quadrature of the defining integral "
+                                  f"(12 rows in one call: rel. {e1:.2g}; one at a time: {e2:.2g}; B: {e3:.2g})", "replay": {"class": clsx, "dimension": np.asarray(srcx.dimension).tolist(), "polarization": polc.tolist(), "local_observers": loc.tolist()}})
         # a body given as a surface mesh, observers on a regular interior grid aligned with the mesh (unrotated, at the
         # origin): the mesh field must equal the Cuboid closed form (itself compared with the quadrature above)
         from oracles.sources import lattice_box_case
